@@ -6,6 +6,7 @@ import (
 
 	"github.com/talostrading/sonic/codec/websocket"
 
+	shimnet "sonicverif/shim/net"
 	"sonicverif/sim"
 )
 
@@ -319,6 +320,11 @@ func runC17(c *Ctx, variant int) {
 		w.TCPSndCap = w.Pick(1<<20, 16, 200, 4096)
 	}
 	d.connect()
+	if variant < 0 && w.Chance(1, 3) {
+		// after the handshake (net/http rightly refuses a writer that accepts a prefix without an error): the
+		// transport under the adapter accepts writes in parts
+		shimnet.ShortWrites = true
+	}
 	d.acc0 = d.srv.end.Peer().Accepted
 	// the message API hands control frames to this callback as it consumes them
 	d.ws.SetControlCallback(func(t websocket.MessageType, p []byte) {
